@@ -187,7 +187,14 @@ pub fn fault(out: &mut Out, count: u64) {
             }
         }
     }
-    let count = count as usize;
+    // The operation-level fault grids come first, so that small counts include all of them.
+    let plans = plans();
+    let n_plans = plans.len().min(count as usize);
+    for (i, plan) in plans[..n_plans].iter().enumerate() {
+        let (tags, d) = run_plan(out.rng(6000 + i as u64), plan);
+        out.emit(i as u64, "", &tags, &d);
+    }
+    let count = count as usize - n_plans;
     let n_timeouts = 6.min(count);
     let n_idle = IDLE_WAYS.len().min(count - n_timeouts);
     // Broker DISCONNECT: reason absent / success / failures, with and without a reason string.
@@ -198,7 +205,7 @@ pub fn fault(out: &mut Out, count: u64) {
     }
     let n_disc = disconnects.len().min(count - n_timeouts - n_idle);
     let picks = stride(all.len(), count - n_timeouts - n_idle - n_disc);
-    let mut idx = 0u64;
+    let mut idx = n_plans as u64;
     for (rc, with_props) in &disconnects[..n_disc] {
         let mut d = setup(out.rng(4000 + idx), 128, 256);
         let bytes = match (rc, with_props) {
@@ -712,5 +719,126 @@ fn run_script(rng: super::Rng, script: &Script) -> (String, Drv) {
         }
     };
     d.finish_benign();
+    (tags, d)
+}
+
+// -------------------------------------------------------------------------------------------
+// Fault grids over single operations: QoS 0 publish, DISCONNECT, the handshake.
+
+struct Plan {
+    scenario: &'static str,
+    variant: &'static str,
+    /// A QoS 1 publish left half-written before the operation.
+    half_written: bool,
+    op: String,
+    /// Decisions given to the operation; the last one is the fault.
+    steps: Vec<u8>,
+}
+
+fn plans() -> Vec<Plan> {
+    let mut v = Vec::new();
+    let w_faults = [251u8, 252, 253, 254, 255];
+    let f_faults = [252u8, 253, 254, 255];
+    let mut grid = |scenario: &'static str, ops: [String; 2], partial: u8| {
+        let mut n = 0;
+        let mut add = |variant: &'static str, half: bool, op: &String, before: &[u8], faults: &[u8]| {
+            for f in faults {
+                let mut steps = before.to_vec();
+                steps.push(*f);
+                v.push(Plan { scenario, variant, half_written: half, op: op.clone(), steps });
+            }
+        };
+        // Nothing pending: first write, flush.
+        add("plain", false, &ops[n % 2], &[], &w_faults);
+        n += 1;
+        add("plain", false, &ops[n % 2], &[250], &f_faults);
+        n += 1;
+        // A partial acceptance first: second write, flush.
+        add("partial", false, &ops[1], &[partial], &w_faults);
+        add("partial", false, &ops[1], &[partial, 250], &f_faults);
+        // Older work pending (a half-written QoS 1 publish is drained first).
+        add("behind", true, &ops[n % 2], &[], &w_faults);
+        n += 1;
+        add("behind", true, &ops[n % 2], &[250], &f_faults);
+        n += 1;
+        add("behind", true, &ops[n % 2], &[250, 250], &w_faults);
+        n += 1;
+        add("behind", true, &ops[n % 2], &[250, 250, 250], &f_faults);
+    };
+    grid(
+        "pub0",
+        ["publish 0 0 7130 78 -".to_string(), PubLine::simple(0, "q0/long", &[0x51; 12]).text()],
+        3,
+    );
+    grid(
+        "disconnect",
+        ["disconnect none none".to_string(), "disconnect 04 none".to_string()],
+        1,
+    );
+    // The handshake: CONNECT write, second write after a partial one, flush, the three reads of
+    // the CONNACK (251 in the middle of it is an EOF mid-CONNACK). Two kinds per index.
+    let hs: [(&'static str, &[u8], [u8; 2]); 6] = [
+        ("connect-write", &[], [251, 252]),
+        ("connect-write-2", &[5], [251, 253]),
+        ("connect-flush", &[250], [252, 254]),
+        ("connack-read-1", &[250, 250], [251, 255]),
+        ("connack-read-2", &[250, 250, 250], [251, 252]),
+        ("connack-read-3", &[250, 250, 250, 250], [251, 254]),
+    ];
+    for (variant, before, faults) in hs {
+        for f in faults {
+            let mut steps = before.to_vec();
+            steps.push(f);
+            v.push(Plan { scenario: "connect", variant, half_written: false, op: "connect".into(), steps });
+        }
+    }
+    v
+}
+
+fn run_plan(rng: super::Rng, plan: &Plan) -> (String, Drv) {
+    let mut d = Drv::new(&CfgSpec::basic(128, 256), rng);
+    d.split_rx = false;
+    let mut awaited = '-';
+    if plan.scenario == "connect" {
+        d.x("connect");
+    } else {
+        d.connect(&ConnSpec::plain());
+        if plan.half_written {
+            d.x(&PubLine::simple(1, "half", b"written").text());
+            d.x("d 5");
+            d.x("cancel");
+        }
+        d.x(&plan.op);
+    }
+    for (i, n) in plan.steps.iter().enumerate() {
+        if !d.suspended() {
+            break;
+        }
+        if plan.scenario == "connect" && i == 2 {
+            d.send_raw("connack", &wire::connack(false, 0, &[]));
+        }
+        awaited = d.pend.unwrap_or('-');
+        d.x(&format!("d {n}"));
+    }
+    if plan.scenario != "connect" {
+        // On the same handle: everything must report Disconnected / Ok without I/O.
+        for line in ["poll", "publish 1 0 6166 74 -", "subscribe - 6166/0/0/0/0", "disconnect none none"] {
+            d.x(line);
+            d.go();
+        }
+        d.x("drop");
+    } else {
+        d.x("cancel");
+    }
+    d.comment("healthy-connect");
+    d.connect(&ConnSpec::plain());
+    d.finish_benign();
+    let tags = format!(
+        "scenario={} variant={} io={} awaited={awaited} fault=d{}",
+        plan.scenario,
+        plan.variant,
+        plan.steps.len() - 1,
+        plan.steps.last().unwrap()
+    );
     (tags, d)
 }
